@@ -1745,6 +1745,214 @@ def check_rollout_baseline(ctx):
                     "bl_vals_head": [float(x) for x in bl.bl_vals.tolist()][:3], "wrap_extra_head": extra[:3], "reference_head": ref[:3]}, cap=4)
 
 
+def _td_equal(a, b, keys):
+    for k in keys:
+        if k in a.keys() and k in b.keys():
+            x, y = a[k], b[k]
+            if x.shape != y.shape or not torch.equal(x, y):
+                return k
+    return None
+
+
+def check_nstep_ppo(ctx):
+    """`n_step_PPO.shared_step` (improvement models DACT / N2S / NeuOpt) in the training phase without a Trainer: a plain
+    optimizer with lr = 0 freezes the parameters, the dropout layers that `nn/mlp.py` keeps in a plain Python list are
+    switched off explicitly, so every inner PPO epoch must reproduce the rollout.  Per n-step block, inner epoch k and
+    stored step t: (a) the state the stored action is re-evaluated in is the state it was sampled in; (b) its re-evaluated
+    log-probability equals the stored one (ratio 1); (c) the loss (and θ·grad) equals the reference clipped surrogate +
+    value term recomputed from the rollout with the n-step returns `R_t = r_t + γ·R_{t+1}` bootstrapped by the critic."""
+    from rl4co.envs import PDPRuinRepairEnv, TSPkoptEnv
+    from rl4co.models import DACT, N2S, NeuOpt
+
+    kinds = ["dact", "n2s", "neuopt"]
+    for c in range(ctx.budget(6, 30)):
+        rng = ctx.rng
+        gen = _seed_torch(ctx)
+        kind = kinds[c % 3]
+        nloc = rng.choice([6, 8])
+        if kind == "dact":
+            env, cls = TSPkoptEnv(generator_params=dict(num_loc=nloc), k_max=2), DACT
+        elif kind == "n2s":
+            env, cls = PDPRuinRepairEnv(generator_params=dict(num_loc=nloc)), N2S
+        else:
+            env, cls = TSPkoptEnv(generator_params=dict(num_loc=nloc), k_max=4), NeuOpt
+        n_step = rng.choice([2, 3])
+        blocks = rng.choice([1, 2])
+        K_in = rng.choice([1, 2, 3, 3]) if c >= 3 else 3
+        gamma = rng.choice([0.999, 0.9, 0.5])
+        clip = rng.choice([0.1, 0.2])
+        vf = rng.choice([1.0, 0.5])
+        kw = dict(n_step=n_step, T_train=n_step * blocks, T_test=2, ppo_epochs=K_in, gamma=gamma, clip_range=clip, vf_lambda=vf,
+                  CL_best=rng.random() < 0.5)
+        if c % 6 == 5:
+            kw = dict(n_step=n_step, T_train=n_step * blocks, T_test=2)  # ppo_epochs, gamma, clip_range, vf_lambda at their defaults
+        model = cls(env, **kw)
+        cfg = model.ppo_cfg
+        K_in, gamma, clip, vf = cfg["ppo_epochs"], cfg["gamma"], cfg["clip_range"], cfg["vf_lambda"]
+        model.log_dict = _noop
+        for mod in model.modules():  # dropouts kept in a plain list are not reached by .eval() / .train()
+            if hasattr(mod, "dropouts"):
+                for d_ in mod.dropouts:
+                    d_.eval()
+        params = list(model.policy.parameters()) + list(model.critic.parameters())
+        opt = torch.optim.SGD(params, lr=0.0)
+        model.optimizers = lambda opt=opt: opt
+        model.clip_gradients = _noop
+        dirn = Direction(params, gen)
+        # N2SPolicy and NeuOptPolicy cannot handle a batch of ONE instance on the unchanged tree (a squeezed tensor loses its
+        # batch dimension: IndexError) — outside this routine's subject, so they are driven with B ≥ 2
+        B = rng.choice([1, 2, 3]) if kind == "dact" else rng.choice([2, 3])
+        ctx.count(f"c16.nstep.{kind}")
+        ctx.count(f"c16.nstep.ppo_epochs.{K_in}")
+        # --- recording: every policy / critic call with a deep copy of the state it receives -------------------------
+        calls = []
+        pol_fwd, cri_fwd = model.policy.forward, model.critic.forward
+
+        def pfwd(td, *a, **k):
+            snap = td.clone()
+            out = pol_fwd(td, *a, **k)
+            kind_ = "reeval" if k.get("actions") is not None else ("boot" if k.get("only_return_embed") else "rollout")
+            calls.append({"who": "policy", "kind": kind_, "state": snap, "out": out, "actions": k.get("actions")})
+            return out
+
+        def cfwd(*a, **k):
+            out = cri_fwd(*a, **k)
+            calls.append({"who": "critic", "out": out})
+            return out
+
+        model.policy.forward, model.critic.forward = pfwd, cfwd
+        epochs = []  # one record per manual_backward: the calls since the previous one
+
+        def manual_backward(loss):
+            # directional derivatives of everything the loss was built from, BEFORE backward frees the graphs
+            for rec_ in calls:
+                o_ = rec_["out"]
+                if rec_["who"] == "critic":
+                    rec_["dv"] = dirn.dd_each(o_)
+                elif rec_["kind"] != "boot" and "log_likelihood" in o_:
+                    rec_["dll"] = dirn.dd_each(o_["log_likelihood"])
+            epochs.append({"loss": loss, "dd": dirn.dd(loss), "calls": list(calls)})
+            calls.clear()
+            loss.backward()
+
+        model.manual_backward = manual_backward
+        batch = env.generator(batch_size=[B])
+        wit0 = {"model": kind, "num_loc": nloc, "B": B, "n_step": n_step, "T_train": n_step * blocks, "ppo_epochs": K_in,
+                "gamma": gamma, "clip_range": clip, "vf_lambda": vf}
+        try:
+            model.shared_step(batch, 0, "train")
+        except Exception as ex:
+            ctx.violation("loss-raises", f"n_step_PPO[{kind}].shared_step(…, 'train') raises {type(ex).__name__}", {**wit0, "error": str(ex)[:200]})
+            continue
+        finally:
+            del model.policy.forward, model.critic.forward
+        if len(epochs) != blocks * K_in:
+            ctx.disagreement("n-step PPO: number of optimisation steps", {**wit0, "steps": len(epochs)})
+            continue
+        state_keys = ["rec_current", "cost_current", "cost_bsf", "rec_best", "action", "visited_time", "i", "locs"]
+        for blk in range(blocks):
+            eps_ = epochs[blk * K_in:(blk + 1) * K_in]
+            first = eps_[0]["calls"]
+            roll = [x for x in first if x["who"] == "policy" and x["kind"] == "rollout"][-n_step:]
+            roll_states = [x["state"] for x in roll]
+            roll_actions = [x["out"]["actions"] for x in roll]
+            old_ll = [x["out"]["log_likelihood"].detach() for x in roll]
+            # critic values of the rollout: the critic call following each rollout policy call
+            def critic_after(seq, pol_call, what="out"):
+                j = next(idx_ for idx_, y in enumerate(seq) if y is pol_call)
+                return seq[j + 1][what]
+            rewards = None
+            old_value = None
+            flagged = False
+            for k, ep in enumerate(eps_):
+                seq = ep["calls"]
+                wit = {**wit0, "block": blk, "inner_epoch": k}
+                ctx.case(("nstep", c, blk, k), nontrivial=True)
+                if k == 0:
+                    ll_t = [x["out"]["log_likelihood"] for x in roll]
+                    bl_t = [critic_after(seq, x) for x in roll]
+                    dll = [d_ for x in roll for d_ in x["dll"]]
+                    dbl = [d_ for x in roll for d_ in critic_after(seq, x, "dv")]
+                else:
+                    re = [x for x in seq if x["who"] == "policy" and x["kind"] == "reeval"]
+                    if len(re) != n_step:
+                        ctx.disagreement("n-step PPO: number of re-evaluations", {**wit, "found": len(re)})
+                        flagged = True
+                        break
+                    for t, x in enumerate(re):
+                        bad = _td_equal(x["state"], roll_states[t], state_keys)
+                        if bad is not None or not torch.equal(x["actions"], roll_actions[t]):
+                            ctx.violation("nstep-memory-state", f"n_step_PPO[{kind}]: in inner epoch {k} the stored action of step {t} is "
+                                          f"re-evaluated in a state that differs from the one it was sampled in (key '{bad or 'actions'}'): "
+                                          "the rollout memory does not hold the rollout states",
+                                          {**wit, "step": t, "key": bad or "actions",
+                                           "rollout_state": roll_states[t][bad].tolist()[:1] if bad else None,
+                                           "reevaluated_state": x["state"][bad].tolist()[:1] if bad else None})
+                            flagged = True
+                            break
+                        new_ll = x["out"]["log_likelihood"].detach()
+                        if not torch.allclose(new_ll, old_ll[t], rtol=1e-4, atol=1e-5):
+                            ctx.violation("nstep-reeval-logprob", f"n_step_PPO[{kind}]: with frozen parameters the re-evaluated log-probability "
+                                          f"of the stored action of step {t} (inner epoch {k}) differs from the stored one (ratio ≠ 1)",
+                                          {**wit, "step": t, "stored": old_ll[t].tolist(), "reevaluated": new_ll.tolist()})
+                            flagged = True
+                            break
+                    if flagged:
+                        break
+                    ctx.count("c16.nstep.reevaluations-checked", n_step)
+                    ll_t = [x["out"]["log_likelihood"] for x in re]
+                    bl_t = [critic_after(seq, x) for x in re]
+                    dll = [d_ for x in re for d_ in x["dll"]]
+                    dbl = [d_ for x in re for d_ in critic_after(seq, x, "dv")]
+                boot = [x for x in seq if x["who"] == "policy" and x["kind"] == "boot"]
+                if len(boot) != 1:
+                    ctx.disagreement("n-step PPO: bootstrap evaluation", wit)
+                    flagged = True
+                    break
+                V = critic_after(seq, boot[0]).detach().reshape(-1)
+                if rewards is None:
+                    # rewards of the block: cost_bsf improvement as the env defines it, read from the state AFTER each step =
+                    # the state the next rollout call (or the bootstrap call) received
+                    nxt = roll_states[1:] + [boot[0]["state"]]
+                    rewards = [s_["reward"].reshape(-1) for s_ in nxt]
+                ll_f = torch.stack(ll_t).reshape(-1).detach()
+                bl_f = torch.stack(bl_t).reshape(-1).detach()
+                ol_f = torch.stack(old_ll).reshape(-1)
+                ratio = torch.exp(ll_f - ol_f).detach()
+                ov = old_value
+                ents = []
+                for i in range(ll_f.numel()):
+                    e_ = f"{fs(fr(ll_f[i]))} {fs(fr(dll[i]))} {fs(fr(ol_f[i]))} {fs(fr(bl_f[i]))} {fs(fr(dbl[i]))} "
+                    if ov is not None:
+                        e_ += f"{fs(fr(ov[i]))} "
+                    ents.append(e_ + fs(fr(ratio[i])))
+                dt = ll_f.dtype
+                line = (f"train.nstep {fs(fr(gamma))} {fs(fr(torch.tensor(1 - clip, dtype=dt)))} {fs(fr(torch.tensor(1 + clip, dtype=dt)))} "
+                        f"{fs(fr(clip))} {fs(fr(vf))} {n_step} {B} " + " ".join(fs(fr(v)) for r_ in rewards for v in r_.tolist()) + " "
+                        + " ".join(fs(fr(v)) for v in V.tolist()) + f" {0 if ov is None else 1} " + " ".join(ents))
+                rep = parse_fields(ctx.driver.ask(line))
+                if rep["returns"] != rep["refreturns"]:
+                    ctx.disagreement("as-coded n-step returns ≠ closed form", wit)
+                code_loss, code_dd = float(ep["loss"]), ep["dd"]
+                mv, md = pdual(rep["loss"])
+                sv = Fraction(rep["spec"])
+                scale_d = (sum(abs(d) for d in dll) + sum(abs(d) for d in dbl)) / max(1, len(dll)) * (float(V.abs().max()) + 1)
+                if not close(code_loss, sv, 2e-4, atol=1e-5):
+                    ctx.violation("loss-not-reference-surrogate", f"n_step_PPO[{kind}]: loss of inner epoch {k} differs from the clipped surrogate "
+                                  "+ value term recomputed from the rollout (n-step returns bootstrapped by the critic)",
+                                  {**wit, "code": code_loss, "reference": float(sv)})
+                    flagged = True
+                    break
+                if not close(code_loss, mv, 2e-4, atol=1e-5) or not close(code_dd, md, 5e-3, atol=5e-3 * (scale_d + 1e-3)):
+                    ctx.disagreement("n-step PPO: model loss / θ·grad", {**wit, "code": [code_loss, code_dd], "model": [float(mv), float(md)]})
+                if k == 0:
+                    old_value = bl_f.detach().clone()
+                ctx.count("c16.reference-evaluated")
+            if not flagged and K_in > 1:
+                ctx.count("c16.nstep.blocks-consistent-over-inner-epochs")
+        ctx.sample({"unit": "train", "what": f"n_step_PPO[{kind}]", **wit0, "losses": [float(e["loss"]) for e in epochs][:6]}, cap=6)
+
+
 def run_c16(ctx):
     check_calc_loss(ctx)
     check_calc_loss_conditioning(ctx)
@@ -1755,6 +1963,7 @@ def run_c16(ctx):
     check_ppo(ctx)
     check_symnco(ctx)
     check_rollout_baseline(ctx)
+    check_nstep_ppo(ctx)
 
 
 C16_NOTE = ("losses modelled over dual numbers (value, directional derivative) and shaped tensors with PyTorch broadcasting "
@@ -1765,7 +1974,7 @@ C16_NOTE = ("losses modelled over dual numbers (value, directional derivative) a
 C16_MODULES = ["Rl4co.Props.C16.TrainReinforce", "Rl4co.Props.C16.TrainPpo", "Rl4co.Props.C16.TrainSymnco",
                "Rl4co.Props.C16.TrainCoded", "Rl4co.Props.C20.TrainCoded", "Rl4co.Props.C16.TrainSymncoFlat",
                "Rl4co.Props.C16.TrainPpoKink", "Rl4co.Props.C16.TrainRollout", "Rl4co.Props.C16.TrainPpoNorm",
-               "Rl4co.Props.C16.TrainSymncoInv", "Rl4co.Props.C20.TrainSpecSanity"]
+               "Rl4co.Props.C16.TrainSymncoInv", "Rl4co.Props.C20.TrainSpecSanity", "Rl4co.Props.C16.TrainNStep"]
 C16_THEOREMS = [
     Theorem("Rl4co.Train.reinforce_vec", "proved",
             "REINFORCE, per-instance baseline [n] (critic, rollout `extra`, warm-up mixtures), any advantage scaling: loss = "
@@ -1836,6 +2045,14 @@ C16_THEOREMS = [
     Theorem("Rl4co.Spec.Train.surrogate_add", "proved", "Spec sanity: the surrogate is linear in the log-likelihood direction"),
     Theorem("Rl4co.Spec.Train.sharedSurrogate_shift", "proved", "Spec sanity: shifting all rewards of an instance by a constant leaves the shared-baseline surrogate unchanged"),
     Theorem("Rl4co.Spec.Train.ppo_at_ratio_one", "proved", "Spec sanity: at ratio 1 the PPO reference is −mean A + vf·mean huber − ent·mean h"),
+    Theorem("Rl4co.Train.NStep.rolloutMemC_eq", "proved", "obligation (token `memory.tds.append(td.clone())`): the n-step rollout memory holds the rollout states"),
+    Theorem("Rl4co.Train.NStep.reeval_state", "proved", "n-step PPO: the state re-evaluated at inner epoch k, step t is the state the action was sampled in"),
+    Theorem("Rl4co.Train.NStep.rolloutMem_alias", "proved", "the recognised negative case: without the clone every stored state aliases the final state"),
+    Theorem("Rl4co.Train.NStep.memory_copies", "proved", "obligation: actions / log-probs / rewards stored as copies, re-evaluation on a copy, adv = Reward − bl.detach(), ratio = exp(ll − old_ll)"),
+    Theorem("Rl4co.Train.NStep.returnsC_eq", "proved", "obligation (token `R = R * gamma + r`): the return recursion as coded = reference"),
+    Theorem("Rl4co.Train.NStep.returns_cons", "proved", "n-step returns: R_t = r_t + γ·R_{t+1}, R_n = critic value of the state after the block"),
+    Theorem("Rl4co.Train.NStep.returns_closed_form", "proved", "closed form R_t = Σ_{j≥t} γ^{j−t} r_j + γ^{n−t} V for every block length"),
+    Theorem("Rl4co.Train.NStep.nstep_value", "proved", "n-step PPO loss of an inner epoch = clipped surrogate + vf·(clipped) value loss, first and later inner epochs"),
     Theorem("Rl4co.Train.RolloutBl.consistent_run", "proved", "after setup and ANY history of callbacks: bl_vals = frozen policy's rewards on its evaluation set, instance by instance; mean = their mean"),
     Theorem("Rl4co.Train.RolloutBl.policy_mem_run", "proved", "the frozen policy is always the initial one or one of the candidates seen"),
     Theorem("Rl4co.Train.RolloutBl.wrap_value", "proved", "wrap_dataset: item i carries the frozen policy's reward on instance i, any evaluation batch size (via Ops.wrap_aligned)"),
@@ -1853,6 +2070,11 @@ def replay_c16(ctx, witness):
 register(Unit("C16", "train", run_c16, drivers=["drv_train"], lean_modules=C16_MODULES, theorems=C16_THEOREMS,
               replay=replay_c16,
               assumptions=[C16_NOTE,
+                           "n_step_PPO (DACT / N2S / NeuOpt) is driven without a Trainer with a plain optimizer of lr = 0; the dropout "
+                           "layers that rl4co/models/nn/mlp.py keeps in a plain Python list (not reached by .eval()) are switched off "
+                           "explicitly so that inner PPO epochs are comparable; N2S / NeuOpt are driven with batch size ≥ 2 (their "
+                           "policies raise an IndexError on a batch of one instance on the unchanged tree); normalize_adv of n-step PPO is "
+                           "left at its default (off)",
                            "besides the real policies, `REINFORCE.calculate_loss` is also driven directly with hand-made rollouts "
                            "(leaf log-likelihood tensor, rewards with exact special values, shapes [B] / [B,S] / 0-d, every scaling mode, "
                            "default-constructed baselines, epochs beyond the warm-up horizon); the warm-up weight fed to the model is "
